@@ -2,6 +2,7 @@ import Noodles.Basic.Wire
 import Noodles.Csi.QueryModel
 import Noodles.Csi.Driver
 import Noodles.Span.DriverC04Span
+import Noodles.Span.DriverC04Join
 /-! Line-protocol handler for the index-and-query pipeline (`c04 …`). -/
 namespace Noodles.Csi
 open Noodles.Wire
@@ -31,6 +32,7 @@ def handleC04 : List String → String
                     else queryChunksBinned ms d off recs qs qe
       s!"chunks={fmtChunks chunks} recs={fmtIds (queryRecs chunks off recs qs qe)}"
     | _, _, _, _, _ => "bad-op"
+  | "join" :: rest => Noodles.Span.DriverJoin.handle rest
   | ws => Noodles.Span.Driver.handle ws
 
 end Noodles.Csi
